@@ -49,37 +49,31 @@ def run(prog, rep):
         raise AnalysisBroken("enum PCryptoHashType_ not found")
     by_val = {v: n for (n, v) in enum}
     sw = [b for b in nw.blocks.values() if b.term and b.term.get("kind") == "switch"]
-    if len(sw) != 1:
-        raise AnalysisBroken("p_crypto_hash_new: expected one switch")
+    # which slots are installed for which hash type: facts on the type at every store into a slot (a switch, an if chain,
+    # in place or in a static helper - the inlined view covers all of them)
     cases = {}
-    for (to, on) in sw[0].succs:
-        if not on.startswith("case:"):
-            continue
-        val = int(on[5:])
-        slots = {}
-        hlen = None
-        cur = to
-        seen = set()
-        while cur is not None and cur not in seen:
-            seen.add(cur)
-            blk = nw.blocks[cur]
-            for s in blk.stmts:
-                for n in walk(s):
-                    if n["k"] == "asg":
-                        l = strip_casts(n["l"])
-                        if l is not None and l["k"] == "member":
-                            if l["field"] in SLOTS:
-                                slots[l["field"]] = fn_of_ref(n["r"])
-                            elif l["field"] == "hash_len":
-                                hlen = cv(n["r"])
-            # stop at the block that leaves the switch (break): a block whose successor is the switch join
-            if len(blk.succs) != 1:
-                break
-            nxt = blk.succs[0][0]
-            if nw.blocks[nxt].label is not None or len(nw.blocks[nxt].preds) > 1:
-                break
-            cur = nxt
-        cases[val] = (slots, hlen)
+    tkeys = {nw.param_names()[0]}
+
+    def on_slot(st, b, i, stmt):
+        for n in walk(stmt):
+            if n["k"] == "asg":
+                l = strip_casts(n["l"])
+                if l is not None and l["k"] == "member" and (l["field"] in SLOTS or l["field"] == "hash_len"):
+                    v = None
+                    for k_ in list(tkeys) + ["%s->type" % root_var(l)]:
+                        if v is None:
+                            v = guards.lookup(st, k_)
+                    if v is not None:
+                        ent = cases.setdefault(v, [{}, None])
+                        if l["field"] in SLOTS:
+                            ent[0][l["field"]] = fn_of_ref(n["r"])
+                        else:
+                            ent[1] = cv(n["r"])
+        return [guards.transfer(st, stmt)]
+    Flow(nw, [guards.EMPTY], on_slot, lambda st, b, to, on: guards.edge_assume(st, b, on)).run()
+    cases = dict((k_, (v_[0], v_[1])) for k_, v_ in cases.items())
+    if not cases:
+        raise AnalysisBroken("p_crypto_hash_new: no slot store under a known hash type")
     for (name, val) in enum:
         short = name.replace("P_CRYPTO_HASH_TYPE_", "")
         if val not in cases:
@@ -353,7 +347,15 @@ def run(prog, rep):
             raise AnalysisBroken("%s: context record not found" % un)
         bufsz = buffer_bytes(au, rec)
         consts = set()
-        for b, i, s in upf.stmts():
+        # helpers that only the update function uses (a split-off "fill one block" step) are part of it
+        callers_ = {}
+        for f_ in au.functions.values():
+            for (b_, i_, c_) in f_.calls():
+                if c_.get("callee") in au.functions:
+                    callers_.setdefault(c_["callee"], set()).add(f_.name)
+        own_ = set(n_ for n_, cs_ in callers_.items() if au.functions[n_].static and cs_ <= {upf.name})
+        upf_geo = upf.inlined(only=own_) if own_ else upf
+        for b, i, s in upf_geo.stmts():
             for n in walk(s):
                 if n["k"] == "bin" and n["op"] == "&" and cv(n["r"]) is not None and strip_casts(n["l"])["k"] == "member" and cv(n["r"]) > 6:
                     consts.add(("mask", cv(n["r"]) + 1))
@@ -361,6 +363,11 @@ def run(prog, rep):
                     consts.add(("fill", cv(n["l"])))
                 if n["k"] == "bin" and n["op"] in (">=", ">") and root_var(n["l"]) == lenp and cv(n["r"]) is not None and cv(n["r"]) > 8:
                     consts.add(("loop", cv(n["r"]) + (1 if n["op"] == ">" else 0)))
+                # a counted whole-block loop: `len / B` blocks, then `len %= B`
+                if n["k"] == "bin" and n["op"] in ("/", "%") and root_var(n["l"]) == lenp and cv(n["r"]) is not None and cv(n["r"]) > 8:
+                    consts.add(("loop", cv(n["r"])))
+                if n["k"] == "asg" and n["op"] == "%=" and root_var(n["l"]) == lenp and cv(n["r"]) is not None and cv(n["r"]) > 8:
+                    consts.add(("loop", cv(n["r"])))
                 if n["k"] == "call" and n.get("callee") in MEMFUNCS and cv(n["args"][2]) is not None and cv(n["args"][2]) > 8:
                     consts.add(("copy", cv(n["args"][2])))
                 if n["k"] in ("asg",) and n["op"] in ("-=", "+=") and cv(n["r"]) is not None and cv(n["r"]) > 8:
